@@ -48,6 +48,11 @@ CANARIES = [
     ('radix_ctor', 'S', r'\(5, verif_arc_dyn\(Butterfly32', '(4, verif_arc_dyn(Butterfly32', 'new'),
     ('radix_ctor', 'S', r'_ => \(3, verif_arc_dyn\(Butterfly27', '_ => (2, verif_arc_dyn(Butterfly27', 'new'),
     ('sse_butterflies', 'P', r'self\.verif_kernel2_inplace\(chunk\)', 'self.verif_kernel_inplace(chunk)', 'process_with_scratch'),
+    ('plan_sse', 'S', r'const MIN_RADIX4_BITS: u32 = 6;', 'const MIN_RADIX4_BITS: u32 = 1;', 'design_fft_with_factors'),
+    ('plan_sse', 'S', r'let k = cross_bits / 2;', 'let k = cross_bits / 2 + 1;', 'design_radix4'),
+    ('plan_sse', 'S', r'if left_len < 33 && right_len < 33 \{', 'if left_len < 34 && right_len < 34 {', 'design_mixed_radix'),
+    ('plan_sse', 'S', r'count: len\.trailing_zeros\(\),', 'count: len.trailing_zeros() - 1,', 'design_fft_with_factors'),
+    ('math_utils', 'S', r'this\.n >>= factor\.count;', 'this.n >>= factor.count + 1;', 'remove_factors'),
     ('planner_gates', 'S', r'if has_avx && has_fma \{', 'if has_avx || has_fma {', 'new'),
     ('dft', 'S', r'twiddle_index -= self\.twiddles\.len\(\);', 'twiddle_index -= 1;', 'perform_fft_immut'),
 ]
